@@ -72,6 +72,38 @@ func (c *Ctx) searchState(p *Parser) []string {
 	return out
 }
 
+// bufferState: the buffer fields every mutator of the Parser interface may
+// write (Write, ReadFrom, Shrink): Data, W, Off relative to the parser type.
+func (c *Ctx) bufferState(p *Parser) []string {
+	set := map[string]bool{}
+	for _, name := range []string{"Write", "ReadFrom", "Shrink"} {
+		fn := c.method(p.T, name)
+		prefix, ok := c.embedPrefix(p.T, name)
+		if fn == nil || !ok {
+			continue
+		}
+		for _, k := range c.mayWrite(fn) {
+			if !strings.HasPrefix(k, "p0.") {
+				continue
+			}
+			k = joinPath(prefix, strings.TrimPrefix(k, "p0."))
+			if strings.Contains(k, "[*]") {
+				continue
+			}
+			lf := lastField(k)
+			if lf == "Data" || lf == "W" || lf == "Off" {
+				set[k] = true
+			}
+		}
+	}
+	var out []string
+	for k := range set {
+		out = append(out, k)
+	}
+	sort.Strings(out)
+	return out
+}
+
 func prefixKeys(m map[string]bool, prefix string) map[string]bool {
 	out := map[string]bool{}
 	for k := range m {
@@ -222,7 +254,59 @@ func (c *Ctx) elementsRewritten(fn *ssa.Function, prefix, key string) bool {
 func ruleResetCover(c *Ctx) {
 	for _, p := range c.parsers() {
 		c.coverCheck(p, p.Reset, "Reset", nil, "re-initialised")
+		// the buffer itself: Data replaced/emptied, W and Off set to zero on every success path
+		if p.Reset == nil {
+			continue
+		}
+		prefix, ok := c.embedPrefix(p.T, "Reset")
+		if !ok {
+			continue
+		}
+		must := prefixKeys(c.mustWrite(p.Reset, nil), prefix)
+		for _, k := range c.bufferState(p) {
+			key := fmt.Sprintf("%s:Reset:%s", fnName(p.Parse), k)
+			if !covered(must, k) {
+				c.fail(key, p.Reset.Pos(), "buffer field %s is not written on every success path of Reset (resolves to %s): after Reset the parser does not start from the state of a new one", k, fnName(p.Reset))
+				continue
+			}
+			if lastField(k) == "Data" {
+				c.ok(key, p.Reset.Pos(), "Data replaced on every success path")
+				continue
+			}
+			// scalars must be zeroed
+			if bad := c.nonZeroStore(p.Reset, prefix, k); bad != "" {
+				c.fail(key, p.Reset.Pos(), "Reset stores a non-zero value to %s (%s)", k, bad)
+			} else {
+				c.ok(key, p.Reset.Pos(), "%s = 0 on every success path", k)
+			}
+		}
 	}
+}
+
+// nonZeroStore: a store reachable from fn to the scalar location key that
+// does not store constant zero.
+func (c *Ctx) nonZeroStore(fn *ssa.Function, prefix, key string) string {
+	rel := key
+	if prefix != "" {
+		rel = strings.TrimPrefix(key, prefix+".")
+	}
+	for _, s := range c.effects()[fn].may[joinPath("p0", rel)] {
+		st, ok := s.In.(*ssa.Store)
+		if !ok {
+			return s.In.String()
+		}
+		v := st.Val
+		if _, isStruct := v.Type().Underlying().(*types.Struct); isStruct {
+			v = structComponent(v, lastField(key))
+			if v == nil {
+				continue
+			}
+		}
+		if !isZeroConst(v) {
+			return c.pos(st.Pos())
+		}
+	}
+	return ""
 }
 
 func ruleInvalidate(c *Ctx) {
